@@ -177,6 +177,7 @@ class QuicStreamSender:
         self.highest_offset = 0
         self.is_finished = not writable
         self.reset_pending = False
+        self.stopped_by_peer = False
 
         self._acked = RangeSet()
         self._acked_fin = False
